@@ -164,11 +164,11 @@ Proof.
   - split; [exact L1|exact G1].
 Qed.
 
-Lemma simulation_p st o p : reachable st -> no_pending st o ->
+Lemma simulation_p st o p : wf st -> no_pending st o ->
   spec_step (absC st) o = Some p ->
   absC (fst (step st o)) = fst p /\ snd (step st o) = snd p.
 Proof.
-  intros R NP H. pose proof (reachable_wf st R) as W.
+  intros R NP H. pose proof (ok_wf st R) as W.
   destruct o; try discriminate; cbn [spec_step] in H.
   - (* ONew *)
     injection H as H; subst p. split; [|reflexivity].
@@ -319,7 +319,7 @@ Proof.
       * destruct G as (A & B). rewrite A, B. auto.
 Qed.
 
-Theorem simulation st o a' r : reachable st -> no_pending st o ->
+Theorem simulation st o a' r : wf st -> no_pending st o ->
   spec_step (absC st) o = Some (a', r) ->
   absC (fst (step st o)) = a' /\ snd (step st o) = r.
 Proof. intros R NP H. apply (simulation_p st o (a', r) R NP H). Qed.
